@@ -249,7 +249,10 @@ def main():
         pyiga.set_max_threads(1)
     payload = json.load(sys.stdin)
     out = []
+    import time
     for case in payload['cases']:
+        t0 = time.process_time()
+        w0 = time.time()
         try:
             if case['op'] == 'interp':
                 res = run_interp(case)
@@ -262,6 +265,8 @@ def main():
             res['status'] = 'Ok'
         except Exception as e:  # noqa
             res = {'status': errclass(e), 'msg': str(e)[:300]}
+        res['cpu_s'] = round(time.process_time() - t0, 3)
+        res['wall_s'] = round(time.time() - w0, 3)
         out.append(res)
     print(json.dumps({'results': out}))
 
